@@ -148,6 +148,20 @@ class C03:
                 extra["pre"] = [quiet(lambda: sim.simulate(lw.State(list(c["inputs"][0]) + [0]))),
                                 quiet(lambda: sim.simulate([ins[0], lw.State([sum(c["inputs"][0]) + 1] + [0] * (len(c["inputs"][0]) - 1))])),
                                 quiet(lambda: sim.simulate([ins[0], lw.State([sum(c["inputs"][0])] + [0] * len(c["inputs"][0]))]))]
+            if hist == "twice":
+                # the very same request once before, and whatever it handed out (outputs list, array)
+                # is edited in place by the caller: the next call must not see any of it
+                # (the inputs list is the caller's own object and is left alone)
+                def spoil():
+                    r0 = sim.simulate(ins if (len(ins) != 1 or c.get("list_in")) else ins[0], outs)
+                    o0 = r0.outputs
+                    if isinstance(o0, list) and outs is None:      # a list the Simulator generated itself
+                        del o0[::2]
+                        o0.append(lw.State([9] * max(1, circ.input_modes)))
+                    a0 = r0.array
+                    if hasattr(a0, "fill"):
+                        a0.fill(7.0)
+                extra["spoil"] = quiet(spoil)
             res = sim.simulate(ins if (len(ins) != 1 or c.get("list_in")) else ins[0], outs)
             arr = res.array
             # the [input, output] form of the result
